@@ -314,6 +314,14 @@ class SrcSub(Src):
         return "SrcSub()"
 
 
+class Src2(object):
+    """Not adaptable under the harness' standard manager; the manager-swap
+    stratum registers an adapter for it with the replacement manager only."""
+
+    def __repr__(self):
+        return "Src2()"
+
+
 class XAdapter(X):
     """Adapter Src -> X.  Two adapters of the same adaptee are equal, so the
     results of the two code paths can be compared."""
@@ -610,6 +618,7 @@ def _build():
     add("HolderSub()", "hastraits.holder", HolderSub())
     add("Src()", "adaptable", Src())
     add("SrcSub()", "adaptable", SrcSub())
+    add("Src2()", "adaptable.alt", Src2())
     add("XAdapter()", "hastraits", XAdapter(Src()))
 
     # ---- singletons -------------------------------------------------------
